@@ -262,7 +262,7 @@ def u_policy_monitor(sess, tier):
                 fs.text[path] = BAD[i]
                 fs.mtime[path] = fs.clock
 
-        def dfs(spec, trail, k):
+        def dfs(spec, trail, k, events=events):
             if k == 0 or len(failures) >= 3:
                 return
             base = snap()
@@ -290,13 +290,24 @@ def u_policy_monitor(sess, tier):
                                       "contents": contents, "bad": BAD}, err))
                 else:
                     counts['sequences'] += 1
-                    dfs(spec2, trail + [ev], k - 1)
+                    dfs(spec2, trail + [ev], k - 1, events)
                 restore(base)
                 if len(failures) >= 3:
                     return
+        start = snap()
         dfs({}, [], depth)
-    bound = "%d files, %d events, every sequence of depth <= %d with a scan after each event" % (
-        len(files), len(events), depth)
+        # second pass: longer histories over a smaller alphabet (two files shadowing each other back
+        # and forth need five or six steps before a removal shows a stale definition)
+        restore(start)
+        deep_files = files[:2]
+        deep_contents = (0, 1) if tier == 'quick' else (0, 1, 2)
+        deep_events = [('write', f, i) for f in deep_files for i in deep_contents] + [('remove', f, 0) for f in deep_files]
+        deep_depth = 6
+        if not failures:
+            dfs({}, [], deep_depth, deep_events)
+    bound = ("%d files, %d events, every sequence of depth <= %d with a scan after each event; then %d files, %d "
+             "events (writes of %d contents, removals), every sequence of depth <= %d" % (
+                 len(files), len(events), depth, len(deep_files), len(deep_events), len(deep_contents), deep_depth))
     _record(sess, "bounded:kmip.services.server.monitor.PolicyDirectoryMonitor.scan_policies/"
                   "policies-in-force-follow-the-files", failures, counts['scans'], bound)
 
